@@ -292,6 +292,11 @@ def long_cases(ctx, limits):
                 out.append((b"a" + b"\\" * n, L))
                 out.append((b"ab" + b"\\" * n + b'"', L))
                 out.append((b"\xff" + b"\\" * n, L))
+                # a backslash run (all of it escaped pairs) directly followed by a byte that is emitted as an escape
+                # sequence: a cut placed a few characters past the inspected run lands inside that escape
+                for tail in (b"\xc3", b"\x01", b"'", b"??", b"\xc3\xa9z", b"\n0"):
+                    out.append((b"\\" * n + tail, L))
+                    out.append((b"a" + b"\\" * n + tail + b"7", L))
     # random token soup around several limits
     alpha = [b"\\", b"\\", b'"', b"?", b"?", b"\x01", b"\n", b"0", b"7", b"a", b"'", b"\xff", b"\x7f", b"/", b"="]
     for _ in range(ctx.n(400, 6000)):
